@@ -28,7 +28,17 @@ theorem translated_functions : Gen.names =
    "Sender_clone_async", "AsyncSender_clone_sync", "Receiver_recv", "Receiver_recv_timeout", "Receiver_clone_async",
    "AsyncReceiver_clone_sync", "Drop_Receiver_drop", "Drop_AsyncReceiver_drop", "Clone_Receiver_clone",
    "Clone_AsyncReceiver_clone", "Drop_SendFuture_drop", "Future_SendFuture_poll", "Drop_ReceiveFuture_drop",
-   "Future_ReceiveFuture_poll"] := by decide
+   "Future_ReceiveFuture_poll", "Stream_ReceiveStream_poll_next"] := by decide
+
+/-- `ChannelInternal::new` builds the model's initial state: empty buffer and list, both counts 1, capacity as given or unbounded -/
+theorem new_eq (bounded : Bool) (capacity : Nat) :
+    Gen.ChannelInternal_new bounded capacity = Chan.new (if bounded then some capacity else none) := by
+  unfold Gen.ChannelInternal_new Chan.new; cases bounded <;> rfl
+
+/-- the four constructors call it with `(true, size)` resp. `(false, _)` -/
+theorem constructor_calls : Gen.constructorCalls =
+    [("bounded", "true", "size"), ("bounded_async", "true", "size"),
+     ("unbounded", "false", "UNBOUNDED_STARTING_SIZE"), ("unbounded_async", "false", "UNBOUNDED_STARTING_SIZE")] := by decide
 
 /-! ### the methods of `ChannelInternal` are the functions of `Kanal.Chan` -/
 
@@ -307,6 +317,13 @@ theorem poll_recv (x : Ctx) : Gen.Future_ReceiveFuture_poll x = Fine.pollRecv x 
     congr 1; funext c
     recv_cs
 
+theorem poll_next (x : Ctx) : Gen.Stream_ReceiveStream_poll_next x = Fine.pollNext x := by
+  unfold Gen.Stream_ReceiveStream_poll_next Fine.pollNext
+  rw [poll_recv]
+  split
+  · rfl
+  · congr 1; funext r; cases r <;> rfl
+
 /-! ### `drain_into` -/
 
 /-- the first loop of `drain_into`: `while let Some(v) = internal.queue.pop_front() { vec.push(v) }` -/
@@ -394,6 +411,9 @@ end Kanal
 
 #print axioms Kanal.TieCode.translation_complete
 #print axioms Kanal.TieCode.translated_functions
+#print axioms Kanal.TieCode.new_eq
+#print axioms Kanal.TieCode.constructor_calls
+#print axioms Kanal.TieCode.poll_next
 #print axioms Kanal.TieCode.next_send_eq
 #print axioms Kanal.TieCode.next_recv_eq
 #print axioms Kanal.TieCode.push_send_eq
